@@ -221,6 +221,49 @@ var c01AltInputs = []any{
 	[]any{map[string]any{"a": "a", "b": []any{"z"}, "c": 1}, []any{map[string]any{"a": 1}}, []any{}, map[string]any{}, []any{nil, map[string]any{"a": 2}}},
 }
 
+// c01Scope: lexical scoping at every query position of the grammar. A definition, a binding or a label introduced
+// inside position %Q must be invisible to what follows the construct; what follows refers to an outer function /
+// variable / label of the same name.
+func c01Scope() []string {
+	positions := []string{
+		"if %Q then 1 else 2 end", "if true then %Q else 2 end", "if false then 1 else %Q end", "if false then 1 elif %Q then 2 else 3 end", "if false then 1 elif true then %Q else 3 end", "if %Q then 1 end",
+		"[%Q]", "{a: (%Q)}", "{(%Q | tostring): 1}", "{\"k\\(%Q)\": 1}", ". as {(%Q | tostring): $x} | $x", ". as [$x] ?// {(%Q | tostring): $x} | $x", ". as {\"k\\(%Q)\": $x} | $x", ". as {$x, (%Q | tostring): [$y]} ?// $y | [$x, $y]",
+		"reduce (%Q) as $x (0; 1)", "reduce 1 as $x (%Q; .)", "reduce 1 as $x (0; %Q)", "foreach (%Q) as $x (0; 1)", "foreach 1 as $x (%Q; .)", "foreach 1 as $x (0; %Q)", "foreach 1 as $x (0; 1; %Q)",
+		".[%Q]?", ".[%Q:]?", ".[:%Q]?", "[.[(%Q | numbers)]?]", "\"s\\(%Q)\"", "@json \"j\\(%Q)\"", "@base64 \"\\(%Q)\"", "first(%Q)", "limit(1; %Q)", "def w(p): p; w(%Q)", "def w($p): $p; w(%Q)", "[range(%Q | numbers)]",
+		"try (%Q) catch .", "try error(\"e\") catch (%Q)", "(label $z | %Q)", "-(%Q | numbers)", "(%Q)", "(%Q)?", "(%Q) // 1", "null // (%Q)", "(%Q), 1", "1, (%Q)", "(%Q) + 1", "1 + (%Q | numbers)", "(%Q) and true", "true or (%Q)",
+		".a = (%Q)", ".a |= (%Q)", "(.a | %Q | select(false)) = 1", "path(%Q | empty)", "[.[]? | %Q]", "(%Q) as $x | $x", "(%Q) as [$x] ?// $x | $x", "getpath([%Q | strings])", "[limit(2; repeat(%Q))]", "isempty(%Q)", "[paths(%Q | false)]",
+		"input_line_number?, (%Q)", "$__loc__ | (%Q)", "[recurse(%Q | empty)]", "label $z | (%Q), break $z", "(%Q) | not", "with_entries(%Q | empty)?", "map(%Q)?", "[splits(%Q | strings)?]", "ltrimstr(%Q)", "has(%Q | strings)?", "select(%Q)", "(%Q) == 1",
+	}
+	type probe struct{ outer, inner, after string }
+	probes := []probe{
+		{"def f: \"outer\"; ", "def f: \"inner\"; f", "f"},
+		{"def f: \"outer\"; ", "def f: \"inner\"; def g: f; g", "f"},
+		{"def f: \"outer\"; def g: \"outer-g\"; ", "def g: \"inner\"; def f: g; f", "[f, g]"},
+		{"def f(p): \"outer\"; ", "def f(p): p; f(\"inner\")", "f(1)"},
+		{"\"outer\" as $v | ", "\"inner\" as $v | $v", "$v"},
+		{"\"outer\" as $v | ", ". as [$v] ?// $v | \"inner\" as $v | $v", "$v"},
+		{"[1, 2] as [$v, $u] | ", "{a: 3} as {a: $v} | $v", "[$v, $u]"},
+		{"def f: \"outer\"; \"outer\" as $f | ", "def f: $f; \"inner\" as $f | f", "[f, $f]"},
+	}
+	var out []string
+	for _, pos := range positions {
+		for _, pr := range probes {
+			c := strings.ReplaceAll(pos, "%Q", pr.inner)
+			out = append(out, pr.outer+"[("+c+"), "+pr.after+"]", pr.outer+"["+c+" | "+pr.after+"]", pr.outer+"[("+c+") as $r | "+pr.after+", $r]")
+		}
+		// labels: the construct declares a label of the same name as an enclosing one; the break after it targets the outer one
+		c := strings.ReplaceAll(pos, "%Q", "label $l | (5, break $l, 6)")
+		out = append(out, "[label $l | (1, (("+c+") | ., break $l), 2)]", "[label $l | (1, break $l) | "+c+"]", "[label $l | ("+c+") | label $l | (., break $l, 7)]", "[label $l | label $m | ("+c+"), break $m, 8]")
+	}
+	// siblings and re-entry
+	out = append(out, "[label $x | (1, break $x) | label $x | .]", "[label $x | (1, 2) | label $x | (., break $x)]", "[label $x | (label $x | 1, break $x, 2), 3, break $x, 4]", "[(label $x | 1, break $x), (label $x | 2, break $x)]",
+		"[label $x | (1, 2) | (label $x | ., break $x), (. + 10 | if . > 11 then break $x else . end)]", "[.[]? | label $x | (., break $x)]", "[label $x | def f: break $x; (label $x | 1, f, 2), 3]", "[label $x | def f: label $x | (1, break $x, 2); f, f, break $x]",
+		"def tostring: \"X\"; [\"a\\(1)\", @text \"b\\(2)\", (3 | @text), @json \"c\\(4)\"]", "def tojson: \"X\"; [@json \"c\\(4)\", (5 | @json), \"d\\([6])\"]", "def format(f): \"X\"; [@base64 \"\\(1)\", (2 | @html), @text]", "def tostring: \"X\"; def tojson: \"Y\"; [\"\\([1])\", ([2] | tostring), ([3] | tojson), @json]",
+		"def _tostring: \"X\"; def _tojson: \"Y\"; def _tohtml: \"Z\"; [\"a\\(1)\", @json \"b\\(2)\", @html \"<\\(3)>\"]", "def length: 7; [\"\\(1)\" | length]", "def add: 9; [1, 2] | \"\\(.)\", add",
+	)
+	return out
+}
+
 // c01Scale: programs whose depth/width is a parameter, so that mechanisms which only show beyond a size
 // (scope chains, register-file growth, fork-stack growth, block reuse in the persistent stacks) are exercised.
 func c01Scale(n int) []string {
@@ -297,6 +340,15 @@ func init() {
 			// (a1) destructuring alternatives
 			for _, src := range c01Alt(!c.Quick()) {
 				for _, in := range c01AltInputs {
+					kC01.Do(c, c01Case{Src: src, Input: run.TV{V: in}})
+				}
+			}
+			// (a1'') lexical scoping at every query position
+			for i, src := range c01Scope() {
+				for j, in := range []any{nil, []any{1, "b"}, map[string]any{"a": []any{1}, "outer": 1, "inner": 2}} {
+					if c.Quick() && (i+j)%3 == 2 {
+						continue
+					}
 					kC01.Do(c, c01Case{Src: src, Input: run.TV{V: in}})
 				}
 			}
